@@ -510,6 +510,36 @@ def handleCollector (input impl : Json) : R Reply := do
          tags := ["collector", s!"nodes={nodes}"] ++ (if (boolF impl "race_build").toOption.getD false then ["race-build"] else []),
          key := s!"collector:{nodes}:{nUp}:{nBlock}:{rounds}" }
 
+/-! ### "db" -/
+
+def handleDB (input impl : Json) : R Reply := do
+  let part ← strF input "part"
+  let nodes ← natF input "nodes"
+  let rounds ← natF input "rounds"
+  let crash := (strF impl "crash").toOption.getD ""
+  let races ← natF impl "races"
+  let raceSites := (listF asStr impl "race_sites").toOption.getD []
+  let calls ← natF impl "calls"
+  let errors ← natF impl "errors"
+  let badReads ← natF impl "bad_reads"
+  let finalOk ← boolF impl "final_ok"
+  let done ← boolF impl "done"
+  -- every call is one critical section: nodes × rounds state calls (+ the config calls of every 16th round)
+  let wantCalls := if part = "ocr3" then nodes * (2 * rounds + 2 * ((rounds + 15) / 16)) else nodes * rounds
+  let countsOk := done && calls = wantCalls && errors = 0 && badReads = 0 && finalOk
+  let si := crash = "" && races = 0 && countsOk
+  let what := if part = "ocr3" then "simulated OCR3 database" else "simulated upkeep-state database"
+  let fail :=
+    if si then ""
+    else if races ≠ 0 then s!"data race in repository code ({races}): {raceSites.eraseDups}"
+    else if crash ≠ "" then s!"{what} crashed under concurrent callers: {crash} at {(strF impl "crash_at").toOption.getD ""}"
+    else s!"{what} lost or corrupted a value under concurrent callers: calls {calls} of {wantCalls}, errors {errors}, reads of values nobody wrote {badReads}, final state ok {finalOk}"
+  pure { agree := si, specModel := true, specImpl := si, fail := fail,
+         diff := if si then "" else s!"db {part}: calls={calls}/{wantCalls} errors={errors} bad_reads={badReads} final_ok={finalOk} done={done} crash={crash} races={races}",
+         nontrivial := decide (nodes ≥ 2 ∧ rounds ≥ 1),
+         tags := ["db", s!"part={part}"] ++ (if (boolF impl "race_build").toOption.getD false then ["race-build"] else []),
+         key := s!"db:{part}:{nodes}:{rounds}" }
+
 /-! ### "transmit" -/
 
 def handleTransmit (input impl : Json) : R Reply := do
@@ -557,6 +587,7 @@ def handle (input impl : Json) : R Reply := do
   | "perform" => handlePerform input impl
   | "resave" => handleResave input impl
   | "collector" => handleCollector input impl
+  | "db" => handleDB input impl
   | k => throw s!"unknown C20 case kind {k}"
 
 end AutoVerif.C20
